@@ -29,10 +29,18 @@ func c15Oracle(sp *Spec, x *X, res *mcrt.Result) (string, string) {
 		return "", ""
 	}
 	want := x.FaultText + "\n"
-	if got := x.Debug.String(); got != want {
+	if got := x.Debug.String(); x.FaultText == "*" {
+		// the terminal was closed: the error text is the operating system's; exactly one line is required
+		if strings.Count(got, "\n") != 1 || !strings.HasSuffix(got, "\n") || len(got) < 2 {
+			return "debug-output", fmt.Sprintf("debug output %q, want exactly one error line", got)
+		}
+	} else if got != want {
 		return "debug-output", fmt.Sprintf("debug output %q, want the error once: %q", got, want)
 	}
 	for i, w := range x.Writes {
+		if x.FaultText == "*" {
+			break // pty: writes are not recorded per call
+		}
 		if w.Step > x.FaultStep && w.Data != "!ERR" {
 			return "frame-after-error", fmt.Sprintf("output write %d happened after the failing cycle: %q", i, w.Data)
 		}
@@ -118,6 +126,30 @@ func c15Programs(tier string) ([]*Spec, [][]string) {
 			}
 		}
 	}
+	// the terminal-size query fails: the output is a pseudo terminal that is closed under the container's feet
+	for _, rf := range []string{"auto", "manual"} {
+		for _, n := range []int{1, 2} {
+			for _, when := range []string{"early", "late"} {
+				sp := &Spec{Name: fmt.Sprintf("c15-termsize-%s-n%d", when, n), Refresh: rf, Q: -1, Pty: true, TermW: 30, TermH: 6}
+				for i := 0; i < n; i++ {
+					sp.Bars = append(sp.Bars, BarSpec{Total: 5, Pre: []DecorSpec{syncD(2, 3)}})
+					sp.Main = append(sp.Main, Op{K: "add", B: i})
+					sp.Late = append(sp.Late, Op{K: "get", B: i})
+				}
+				ops := []Op{{K: "incr", B: 0, N: 1}}
+				if when == "late" && rf == "manual" {
+					ops = append(ops, Op{K: "refresh"})
+				}
+				ops = append(ops, Op{K: "closepty"})
+				if rf == "manual" {
+					ops = append(ops, Op{K: "refresh"}, Op{K: "refresh"})
+				}
+				sp.Clients = [][]Op{ops}
+				out = append(out, sp)
+				tags = append(tags, []string{"fault:termsize"})
+			}
+		}
+	}
 	for _, sp := range closingWritePrograms("c15") {
 		out = append(out, sp)
 		tags = append(tags, []string{"fault:write"})
@@ -155,7 +187,7 @@ func init() {
 	register(&Family{
 		Property: "C15",
 		Rule: "fault sites {k-th Fill of bar i, k-th extender call of bar i, k-th output write} for k in 1..2 (3 thorough) x 1..2 bars x layouts {no synchronised decorators, equal columns, failing bar has fewer columns than the other, failing bar has more} x refresh{auto,manual}; bars never complete on their own, so only the error ends the container; every schedule within the deviation bound. " +
-			"Oracle: Wait and every call return, the debug output is exactly the error text and a newline once, no output write begins after the failing cycle, all bars stopped, no library thread alive at quiescence. (The terminal-size query fault needs a pty and is covered by C04's terminal path.)",
+			"Oracle: Wait and every call return, the debug output is exactly the error text and a newline once, no output write begins after the failing cycle, all bars stopped, no library thread alive at quiescence. The terminal-size query fault: the output is a pseudo terminal whose slave end is closed by a client while the container renders (1..2 bars, auto and manual).",
 		Items: func(tier string) []Item {
 			var items []Item
 			bound := 1
